@@ -76,6 +76,7 @@ type domain struct {
 	gate      float64
 	rdv       float64 // C03: rendezvous of everything that is runnable from the start
 	pfirst    float64 // C04: panic recorded first, other failures afterwards (needs scheduler hooks)
+	rootfail  float64 // C20: one worker, only dependency-free tasks fail
 	goexit    float64 // fraction of faults that kill the goroutine with runtime.Goexit
 }
 
@@ -120,6 +121,7 @@ func domainFor(prop string) domain {
 	case "C20":
 		d.pFault, d.perUnit, d.panics = 0.6, 0.3, 0.4
 		d.g = []int{1}
+		d.rootfail = 0.3
 	}
 	return d
 }
@@ -317,6 +319,28 @@ func genScenario(t *rapid.T, s *rt.Spec, d domain) *rt.Scenario {
 					scn.PFirstUnits = append(scn.PFirstUnits, u)
 				}
 			}
+			return scn
+		}
+	}
+	if d.rootfail > 0 && s.Kind == "flow" && (s.Conc == "const:1" || s.Conc == "expr") && prob(t, "rootfail", d.rootfail) {
+		roots, _ := rt.RdvPlan(s, scn)
+		var cands []int
+		for _, u := range roots {
+			if kinds[u] == rt.UTask && s.UnitCanErr()[u] {
+				cands = append(cands, u)
+			}
+		}
+		if len(cands) >= 2 {
+			for u := range scn.Out {
+				scn.Out[u] = rt.Outcome{T: scn.Out[u].T, D: scn.Out[u].D}
+				scn.Pred[u] = rt.PTrue
+			}
+			nf := 2 + uniform(t, "rootfailn", 2)
+			for i := 0; i < nf; i++ {
+				scn.Out[cands[uniform(t, "rootfailu", len(cands))]].K = rt.OErr
+			}
+			scn.N, scn.G, scn.RootFail = 1, 1, true
+			scn.Rdv, scn.GateU, scn.GateFor, scn.PFirst = 0, 0, 0, 0
 			return scn
 		}
 	}
